@@ -19,6 +19,7 @@ import (
 	"runtime"
 	"sort"
 	"strings"
+	"sync"
 
 	"github.com/tychoish/fun"
 	"github.com/tychoish/fun/dt"
@@ -47,13 +48,13 @@ type alt struct {
 }
 
 type obs struct {
-	Term   term           `json:"term"`
-	Kind   string         `json:"kind"`
-	Accept [][]int        `json:"accept"`
-	Rerr   []bool         `json:"rerr"`
-	Alts   []alt          `json:"alts"`
-	Err    string         `json:"err"`
-	Modes  []string       `json:"modes"` // optional: restrict the ways of draining (self-tests)
+	Term   term     `json:"term"`
+	Kind   string   `json:"kind"`
+	Accept [][]int  `json:"accept"`
+	Rerr   []bool   `json:"rerr"`
+	Alts   []alt    `json:"alts"`
+	Err    string   `json:"err"`
+	Modes  []string `json:"modes"` // optional: restrict the ways of draining (self-tests)
 }
 
 type input struct {
@@ -90,6 +91,7 @@ type env struct {
 	ctx    context.Context
 	cancel context.CancelFunc
 	sent   map[string]error // path -> sentinel returned by the faulty user function at that node
+	mu     sync.Mutex       // user functions run on library goroutines (Buffer, Chain, channel conversions)
 	raised map[string]bool
 }
 
@@ -100,8 +102,14 @@ func newEnv() *env {
 
 // fault returns the error the user function at path returns for the i-th element it sees.
 func (e *env) fault(path, kind string, k int) func(i int) error {
+	var sentinel error
 	if kind == "err" {
-		e.sent[path] = errors.New("E@" + path)
+		// eager conversions (BufferedChannel, Channel) start draining while the rest of the tree is still
+		// being built: the maps are shared with those goroutines
+		sentinel = errors.New("E@" + path)
+		e.mu.Lock()
+		e.sent[path] = sentinel
+		e.mu.Unlock()
 	}
 	return func(i int) error {
 		if i != k {
@@ -109,8 +117,10 @@ func (e *env) fault(path, kind string, k int) func(i int) error {
 		}
 		switch kind {
 		case "err":
+			e.mu.Lock()
 			e.raised[path] = true
-			return e.sent[path]
+			e.mu.Unlock()
+			return sentinel
 		case "skip":
 			return fun.ErrIteratorSkip
 		case "eof":
@@ -380,8 +390,8 @@ func replayTerm(in input) map[string]any {
 		modes = o.Modes
 	}
 	unreported := 0
-	var roSeq []int      // what ReadOne delivered
-	var roErrs []string  // paths of the injected sentinels reported by Close() after draining with ReadOne
+	var roSeq []int     // what ReadOne delivered
+	var roErrs []string // paths of the injected sentinels reported by Close() after draining with ReadOne
 	fail := func(key, what string) map[string]any {
 		m := fail0(key, what)
 		if roSeq != nil {
@@ -465,7 +475,10 @@ func replayTerm(in input) map[string]any {
 		}
 		// Close() must not report a user error that no user function can have returned
 		for p, s := range r.e.sent {
-			if errors.Is(r.closeErr, s) && !r.e.raised[p] {
+			r.e.mu.Lock()
+			raised := r.e.raised[p]
+			r.e.mu.Unlock()
+			if errors.Is(r.closeErr, s) && !raised {
 				return fail("iter/close/invented-error", fmt.Sprintf("%s: Close() reports %v, which was never returned by a user function", mode, s))
 			}
 		}
